@@ -8,3 +8,102 @@ package shellfuncsfile
 //@ func NewDefaultConverter() (c)
 //@   props C17 C20
 //@   ensures usable: c != nil
+
+//@ type Converter as c
+//@   lock filtersL protects filters
+
+// ---- the Ctrl+I payload (C17)
+
+// fromSingleFile: converted content, or the content unchanged when no filter matches.
+//@ func Converter.fromSingleFile(c, name) (res, err)
+//@   props C17
+//@   ghost data []byte = nil
+//@   ghost rdErr bool = false
+//@   ghost nRead int = 0
+//@   ghost conv []byte = nil
+//@   ghost convErr error = nil
+//@   ghost nConv int = 0
+//@   on call os.ReadFile(n) (b, e): assert(n == name && c.FS == nil && nRead == 0, "reads_the_named_file"); data = b; rdErr = e != nil; nRead++
+//@   on call fs.ReadFile(f, n) (b, e): assert(n == name && f == c.FS && c.FS != nil && nRead == 0, "reads_the_named_file_from_the_configured_fs"); data = b; rdErr = e != nil; nRead++
+//@   on call Converter.fromReader(cc, r, fn, fl) (b, e): assert(cc == c && fn == name && nRead == 1 && !rdErr && nConv == 0, "converts_the_file_just_read"); conv = b; convErr = e; nConv++
+//@   ensures read_error_reported: imp(rdErr, err != nil)
+//@   ensures unmatched_file_is_passed_through: imp(!rdErr && convErr != nil && errors.Is(convErr, errNoConverter), err == nil && res == data)
+//@   ensures matched_file_is_converted: imp(!rdErr && nConv == 1 && convErr == nil, err == nil && res == conv)
+//@   ensures conversion_error_reported: imp(!rdErr && convErr != nil && !errors.Is(convErr, errNoConverter), err != nil)
+
+// fromReader: the first matching pattern in sorted order decides the filter;
+// non-empty output ends in a newline (appended if missing, nothing else changed).
+//@ func Converter.fromReader(c, r, fn, filters) (b, err)
+//@   props C17
+//@   nilable filters
+//@   ghost nSort int = 0
+//@   ghost mi int = 0 - 1
+//@   ghost out []byte = nil
+//@   ghost outLen int = 0
+//@   ghost filterErr bool = false
+//@   ghost nFilter int = 0
+//@   on call slices.Sort(x): assert(x == patterns && nSort == 0, "patterns_are_sorted"); nSort++
+//@   ghost matchErr bool = false
+//@   on call filepath.Match(p, n) (ok, e): assert(nSort == 1 && p == pattern && n == filepath.Base(fn), "pattern_matched_against_the_base_name"); if e != nil { matchErr = true }
+//@   on assign matchedPattern(v): mi = k
+//@   on call f(n, rr) (o, e): assert(n == fn && rr == r && mi >= 0, "the_selected_filter_converts_this_file"); out = o; outLen = len(o); filterErr = e != nil; nFilter++
+//@   loop 1 counter k
+//@     invariant none_matched_so_far: f == nil && mi == 0 - 1 && nFilter == 0 && nSort == 1 && !matchErr
+//@     invariant earlier_patterns_do_not_match: forall(j, 0 <= j && j < k, !filepath.Match(patterns[j], filepath.Base(fn)))
+//@   exit: assert(imp(nFilter == 1, mi >= 0 && forall(j, 0 <= j && j < mi, !filepath.Match(patterns[j], filepath.Base(fn))) && filepath.Match(patterns[mi], filepath.Base(fn))), "first_matching_pattern_in_sorted_order_wins")
+//@   ensures no_match_is_errNoConverter: imp(nFilter == 0 && !matchErr, err == errNoConverter)
+//@   ensures bad_pattern_reported: imp(matchErr, err != nil && nFilter == 0)
+//@   ensures filter_error_reported: imp(filterErr, err != nil)
+//@   ensures newline_terminated: imp(err == nil && len(b) != 0, b[len(b)-1] == '\n')
+//@   ensures nothing_added_when_already_terminated: imp(err == nil && outLen != 0 && out[outLen-1] == '\n', len(b) == outLen)
+//@   ensures empty_stays_empty: imp(err == nil && outLen == 0, len(b) == 0)
+//@   ensures only_a_newline_is_added: imp(err == nil, nFilter == 1 && (len(b) == outLen || len(b) == outLen + 1) && forall(i, 0 <= i && i < outLen, b[i] == out[i]))
+
+// fromDirectory: candidates are globbed per sorted pattern, sorted and
+// de-duplicated by name; dot-files are skipped before anything is done with
+// them; only regular files are converted, in that order, and the payload is
+// the concatenation of exactly those conversions.
+//@ func Converter.fromDirectory(c, source) (res, err)
+//@   props C17
+//@   ghost nSortP int = 0
+//@   ghost nSortN int = 0
+//@   ghost nCompact int = 0
+//@   ghost regular bool = false
+//@   ghost statted bool = false
+//@   ghost lastConv []byte = nil
+//@   ghost lastConvOK bool = false
+//@   on call slices.Sort(x): if nSortP == 0 { assert(x == patterns && nSortN == 0, "patterns_sorted_before_globbing"); nSortP++ } else { assert(x == fileNames && nCompact == 0 && nSortN == 0, "names_sorted_once"); nSortN++ }
+//@   on call slices.Compact(x) (y): assert(x == fileNames && nSortN == 1 && nCompact == 0, "duplicates_removed_after_sorting"); nCompact++
+//@   on enter fs.Glob(f, p): assert(nSortP == 1 && nSortN == 0 && f == sfs && p == pattern, "candidates_are_the_directory_entries_matching_a_filter_pattern")
+//@   on enter fs.Stat(f, n): assert(nSortN == 1 && nCompact == 1 && f == sfs && n == fileName && !strings.HasPrefix(n, "."), "dot_files_are_never_touched"); statted = true; regular = false
+//@   on call fs.FileMode.IsRegular(m) (b): regular = b
+//@   on enter fs.FS.Open(f, n): assert(f == sfs && n == fileName && statted && regular && !strings.HasPrefix(n, "."), "only_regular_non_dot_files_are_opened")
+//@   on enter Converter.fromReader(cc, r, n, fl): assert(cc == c && n == fileName && statted && regular && !strings.HasPrefix(n, ".") && fl == filters, "only_regular_non_dot_files_are_converted_with_the_filter_table")
+//@   on call Converter.fromReader(cc, r, n, fl) (b, e): lastConv = b; lastConvOK = e == nil
+//@   on enter bytes.Buffer.Write(bb, p): assert(bb == &buf && p == lastConv && lastConvOK, "payload_is_the_concatenation_of_the_conversions"); lastConvOK = false
+//@   loop 1
+//@     invariant globbing: nSortP == 1 && nSortN == 0 && nCompact == 0
+//@   loop 2
+//@     invariant converting: nSortP == 1 && nSortN == 1 && nCompact == 1 && !lastConvOK
+//@   ensures sorted_and_deduplicated: imp(err == nil, nSortP == 1 && nSortN == 1 && nCompact == 1)
+
+// From: sources concatenated in the order given; the listing function is
+// generated from everything before it.
+//@ func Converter.From(c, sources) (res, err)
+//@   props C17 C18
+//@   ghost last []byte = nil
+//@   ghost lastOK bool = false
+//@   ghost nFrom int = 0
+//@   ghost str string = ""
+//@   ghost nStr int = 0
+//@   ghost lf []byte = nil
+//@   ghost nGen int = 0
+//@   ghost nLF int = 0
+//@   on call Converter.from(cc, s) (b, e): assert(cc == c && s == source && nGen == 0, "each_source_converted_in_turn"); last = b; lastOK = e == nil; nFrom++
+//@   on enter bytes.Buffer.Write(bb, p): assert(bb == &buf && ((lastOK && p == last && nGen == 0) || (nGen == 1 && p == lf && nLF == 0)), "payload_is_sources_in_order_then_the_listing_function"); lastOK = false; if nGen == 1 { nLF++ }
+//@   on call bytes.Buffer.String(bb) (s): assert(bb == &buf, "listing_generated_from_the_payload_so_far"); str = s; nStr++
+//@   on call GenFuncList(s) (l, e): assert(c.AddListFunction && nStr == 1 && s == str && nGen == 0, "listing_function_only_when_asked_from_the_whole_payload"); lf = l; nGen++
+//@   loop 1 counter k
+//@     invariant in_order: nFrom == k && !lastOK && nGen == 0 && nStr == 0 && nLF == 0
+//@   ensures every_source_converted: imp(err == nil, nFrom == len(sources))
+//@   ensures listing_iff_asked: imp(err == nil, iff(c.AddListFunction, nGen == 1 && nLF == 1))
